@@ -391,6 +391,98 @@ fn parse_texts(seed: u64, scn: &Scenario, t: &mut Tally) {
     }
 }
 
+fn term_is_ground(t: &Term) -> bool {
+    match t {
+        Term::Var(_) | Term::Anon => false,
+        Term::List(items, tail) => tail.is_none() && items.iter().all(term_is_ground),
+        Term::Func(_, args) | Term::Cplx(_, args) => args.iter().all(term_is_ground),
+        _ => true,
+    }
+}
+
+/// The part of the public API that a program never reaches through a query: listing a knowledge
+/// base, taking rules apart, renaming their variables, unifying terms by hand, the term
+/// constructors and the smaller parsers. Cycle-free by construction (a renamed clause head is
+/// unified with a ground head only), so nothing here can loop.
+fn api_direct(seed: u64, scn: &Scenario, kb: &KnowledgeBase, t: &mut Tally) {
+    let mut rng = Rng::new(seed ^ 0x5eed_a91);
+    let _ = std::panic::catch_unwind(|| format_kb(kb).len());
+    if rng.chance(1, 4) {
+        let _ = std::panic::catch_unwind(|| print_kb(kb));
+    }
+    t.api_direct += 1;
+    // rules taken apart and renamed
+    for c in scn.clauses.iter().take(6) {
+        let rule = c.to_suiron();
+        let _ = std::panic::catch_unwind(|| {
+            let head = rule.get_head();
+            let body = rule.get_body();
+            let text = format!("{} {} {}", rule, head, body);
+            let mut vars = VarMap::new();
+            let renamed = rule.clone().recreate_variables(&mut vars);
+            text.len() + renamed.to_string().len() + vars.len()
+        });
+        t.api_direct += 1;
+    }
+    // unification by hand: a renamed head against every ground head of the same predicate, the
+    // result inspected through the substitution-set API with references kept across the calls
+    let ground: Vec<&Clause> = scn.clauses.iter().filter(|c| c.body.is_none() && c.args.iter().all(term_is_ground)).collect();
+    for c in scn.clauses.iter().filter(|c| !c.args.iter().all(term_is_ground)).take(4) {
+        for g in ground.iter().filter(|g| g.key() == c.key()).take(3) {
+            let _ = std::panic::catch_unwind(|| {
+                start_query();
+                let mut vars = VarMap::new();
+                let head = c.to_suiron().recreate_variables(&mut vars).get_head();
+                let other = g.to_suiron().get_head();
+                let ss = empty_ss!();
+                let mut n = 0;
+                if let Some(ss2) = head.unify(&other, &ss) {
+                    if let Unifiable::SComplex(terms) = &head {
+                        for term in terms.iter().skip(1) {
+                            let a = get_ground_term(term, &ss2);
+                            let b = get_constant(term, &ss2);
+                            let l = get_list(term, &ss2);
+                            if let Some(l) = l {
+                                n += count_terms(l, &ss2) as usize + get_terms(l, &ss2).len();
+                            }
+                            n += [a, b].iter().flatten().map(|r| r.to_string().len()).sum::<usize>();
+                        }
+                    }
+                    n += format_ss(&ss2).len();
+                    if n % 5 == 0 {
+                        print_ss(&ss2);
+                    }
+                    // and the other way round (unification is symmetric), on top of the result
+                    let _ = other.unify(&head, &ss2).map(|s| s.len());
+                }
+                n
+            });
+            t.api_direct += 1;
+        }
+    }
+    // constructors and the smaller parsers
+    for text in ["add(1, 2)", "join(a, $X, \"b c\")", "multiply($X, 2.5)", "subtract(", "add()", "f(a, $X)", "f(a, [b, c | $T], g(h))", "f(", "f(a))", "[a, b | $T]", "[a, [], b]", "[a | ]", "[a, b", "a, $X, [b], \"q, r\", g(1, 2)", "a, ,b", "$X", "$", "$_", "nl", "fail", "!", "print(a, $X)", "not(f($X))", "f($X), g($Y) ; h", "$X = 3", "$X >= 2.5", "\"a\"b\"", "é(日本, $Ü)"] {
+        if rng.chance(1, 2) {
+            let _ = std::panic::catch_unwind(|| parse_function(text).is_ok());
+            let _ = std::panic::catch_unwind(|| parse_complex(text).is_ok());
+            let _ = std::panic::catch_unwind(|| parse_linked_list(text).is_ok());
+            let _ = std::panic::catch_unwind(|| parse_arguments(text).map(|v| v.len()).unwrap_or(0));
+            let _ = std::panic::catch_unwind(|| make_logic_var(text.to_string()).is_ok());
+            let _ = std::panic::catch_unwind(|| generate_goal(text).map(|g| g.to_string().len()).unwrap_or(0));
+            let _ = std::panic::catch_unwind(|| check_quotes(text, text.matches('"').count()).is_none());
+            t.api_direct += 1;
+        }
+    }
+    let _ = std::panic::catch_unwind(|| {
+        let g = make_goal("f", vec![atom!("a"), logic_var!("$X"), SInteger(3)]);
+        let h = make_goal_no_args("nl");
+        let fact = make_fact(make_complex(vec![atom!("k"), SFloat(1.5), slist!(false, atom!("a"), atom!("b"))]));
+        format!("{} {} {}", g, h, fact).len()
+    });
+    // leave the globals as a query constructor would
+    start_query();
+}
+
 fn mutate_kb(kb: &mut KnowledgeBase, scn: &Scenario, kind: u64, q: usize, t: &mut Tally) {
     let spec = &scn.queries[q];
     let key = spec.key();
@@ -469,6 +561,7 @@ struct Tally {
     parsed: u64,
     malformed: u64,
     inspected: u64,
+    api_direct: u64,
 }
 
 fn run_scenario(scn: &Scenario, mops: &[MOp], t: &mut Tally) {
@@ -484,7 +577,10 @@ fn run_scenario(scn: &Scenario, mops: &[MOp], t: &mut Tally) {
         if end < mops.len() {
             match &mops[end] {
                 MOp::KbMutate { kind, q } => mutate_kb(&mut kb, scn, *kind, *q, t),
-                MOp::ParseTexts { seed } => parse_texts(*seed, scn, t),
+                MOp::ParseTexts { seed } => {
+                    parse_texts(*seed, scn, t);
+                    api_direct(*seed, scn, &kb, t);
+                }
                 MOp::AssertExtra { c } => {
                     if *c < scn.extra_clauses.len() {
                         add_rules(&mut kb, vec![scn.extra_clauses[*c].to_suiron()]);
@@ -644,7 +740,7 @@ fn main() {
     // Miri reports threads that are alive when main returns
     std::thread::sleep(Duration::from_millis(1100));
     eprintln!(
-        "TALLY part={} first={} count={} ops={} answers={} timer_during={} timer_after={} timer_cancelled={} solve_calls={} solve_timeouts={} reasks={} cut_rules={} kb_mutations={} parsed={} malformed={} inspected={}",
-        part, first, count, t.ops, t.answers, t.timer_fired_during_search, t.timer_fired_after, t.timer_cancelled, t.solve_calls, t.solve_timeouts, t.reasks_after_none, t.cut_rules, t.kb_mutations, t.parsed, t.malformed, t.inspected
+        "TALLY part={} first={} count={} ops={} answers={} timer_during={} timer_after={} timer_cancelled={} solve_calls={} solve_timeouts={} reasks={} cut_rules={} kb_mutations={} parsed={} malformed={} inspected={} api_direct={}",
+        part, first, count, t.ops, t.answers, t.timer_fired_during_search, t.timer_fired_after, t.timer_cancelled, t.solve_calls, t.solve_timeouts, t.reasks_after_none, t.cut_rules, t.kb_mutations, t.parsed, t.malformed, t.inspected, t.api_direct
     );
 }
